@@ -4,6 +4,7 @@ package rules
 // the defect, reports it on the tree before the repair and holds after it.
 
 import (
+	"fmt"
 	"go/types"
 	"sort"
 	"strings"
@@ -1103,43 +1104,68 @@ func (c *Ctx) docStopsAtFieldRule(rule string) {
 	// that are no *ast.Field (every way it returns nil has failed the assertion to *ast.Field on its parameter)
 	helperSaysNoField := func(l core.Lit) bool {
 		t, pos := c.Canon(l)
-		if !pos || t.Kind != "binop" || t.Name != "==" {
-			return false
-		}
-		for i := 0; i < 2; i++ {
-			call, k := t.Args[i], t.Args[1-i]
-			if !k.Is("const", "nil") || call.Kind != "call" || len(call.Args) != 1 {
-				continue
-			}
-			for _, h := range c.P.Funcs() {
-				if (h.String() != call.Name && core.FuncName(h) != call.Name) || pkgOf(h) != pkgOf(fn) || len(h.Params) != 1 {
+		// which result of which call, and which of its answers are meant
+		var call *core.Term
+		idx, wantNil := 0, false
+		switch {
+		case pos && t.Kind == "binop" && t.Name == "==":
+			for i := 0; i < 2; i++ {
+				x, k := t.Args[i], t.Args[1-i]
+				if !k.Is("const", "nil") {
 					continue
 				}
-				hr := c.Reach(h)
-				paramNotField := c.M(false, func(x *core.Term) bool {
-					return assertOK("*ast.Field")(x) && len(x.Args[0].Args) == 1 && x.Args[0].Args[0].Kind == "param"
-				})
-				nNil, all := 0, true
-				for _, ret := range core.Returns(h) {
-					if len(ret.Results) != 1 {
-						return false
+				if x.Kind == "extract" && len(x.Args) == 1 && x.Args[0].Kind == "call" {
+					fmt.Sscanf(x.Name, "%d", &idx)
+					x = x.Args[0]
+				}
+				if x.Kind == "call" && len(x.Args) == 1 {
+					call, wantNil = x, true
+				}
+			}
+		case !pos && t.Kind == "extract" && len(t.Args) == 1 && t.Args[0].Kind == "call" && len(t.Args[0].Args) == 1:
+			// a bool result of the helper that is false ("not a member")
+			fmt.Sscanf(t.Name, "%d", &idx)
+			call = t.Args[0]
+		}
+		if call == nil {
+			return false
+		}
+		for _, h := range c.P.Funcs() {
+			if (h.String() != call.Name && core.FuncName(h) != call.Name) || pkgOf(h) != pkgOf(fn) || len(h.Params) != 1 {
+				continue
+			}
+			hr := c.Reach(h)
+			paramNotField := c.M(false, func(x *core.Term) bool {
+				return assertOK("*ast.Field")(x) && len(x.Args[0].Args) == 1 && x.Args[0].Args[0].Kind == "param"
+			})
+			paramOtherKind := c.M(true, func(x *core.Term) bool {
+				return x.Kind == "extract" && x.Name == "1" && x.Args[0].Kind == "typeassert,ok" && strings.HasPrefix(x.Args[0].Name, "*ast.") && x.Args[0].Name != "*ast.Field" &&
+					len(x.Args[0].Args) == 1 && x.Args[0].Args[0].Kind == "param"
+			})
+			nMeant, all := 0, true
+			for _, ret := range core.Returns(h) {
+				if len(ret.Results) <= idx {
+					return false
+				}
+				for _, cs := range hr.Cases(ret.Results[idx]) {
+					v := c.O.Of(cs.V)
+					if wantNil && !v.Is("const", "nil") {
+						continue
 					}
-					for _, cs := range hr.Cases(ret.Results[0]) {
-						if !c.O.Of(cs.V).Is("const", "nil") {
-							continue
-						}
-						nNil++
-						cond := c.ReachOf(ret)
-						if cs.Cond != nil {
-							cond = core.And(cs.Cond, cond)
-						}
-						if !cond.Implies(paramNotField) {
-							all = false
-						}
+					if !wantNil && v.Is("const", "true") {
+						continue
+					}
+					nMeant++
+					cond := c.ReachOf(ret)
+					if cs.Cond != nil {
+						cond = core.And(cs.Cond, cond)
+					}
+					if !cond.Implies(paramNotField, paramOtherKind) {
+						all = false
 					}
 				}
-				return nNil > 0 && all
 			}
+			return nMeant > 0 && all
 		}
 		return false
 	}
